@@ -54,6 +54,19 @@ EndRequest(c, m, e) ==
        THEN Fail(m, "L3/no-reply-although-the-peer-accepted-again-and-a-retry-was-configured")
   ELSE m
 
+\* transport.reconnect(timeout = T): "attempts to reconnect every 100 ms until at max timeout" (its docstring).
+\* A peer that accepts again ReconnectSlack before the deadline is found; the call never outlives its deadline.
+ReconnectSlack == 400
+EndReconnect(c, m, e) ==
+  IF e.res = "Hang" THEN Fail(m, "L1/reconnect-blocks-forever")
+  ELSE IF e.res = "ok" THEN m
+  ELSE IF e.res \notin {"Timeout", "ConnErr"} THEN Fail(m, "L1/loss-surfaced-as-unexpected-exception")
+  ELSE IF m.tmo # -1 /\ e.t > m.t0 + m.tmo + ReconnectSlack
+       THEN Fail(m, "L1/reconnect-ended-later-than-its-timeout")
+  ELSE IF m.tmo # -1 /\ m.restartAt # -1 /\ m.restartAt + ReconnectSlack <= m.t0 + m.tmo
+       THEN Fail(m, "L3/reconnect-gave-up-although-the-peer-accepted-again-before-its-deadline")
+  ELSE m
+
 \* the NEXT request, issued after the peer accepts connections again: with a retry configured it recovers
 EndNextRequest(c, m, e) ==
   IF e.res = "Hang" THEN Fail(m, "L1/request-blocks-forever")
@@ -74,6 +87,7 @@ Step(c, m, e) ==
          IF e.op = "close" THEN (IF e.res = "ok" THEN m ELSE Fail(m, "L4/close-raised"))
          ELSE IF e.op = "request" THEN EndRequest(c, m, e)
          ELSE IF e.op = "request2" THEN EndNextRequest(c, m, e)
+         ELSE IF e.op = "reconnect" THEN EndReconnect(c, m, e)
          ELSE EndTransportOp(c, m, e)
     [] e.e = "Final" -> m
     [] OTHER -> Fail(m, "trace/unknown-event")
